@@ -83,6 +83,8 @@ pub struct Interp {
     pub current_file: Rc<str>,
     /// repair-model switch: evaluate `x ^ 0.5` with sqrt semantics (only used to attribute a known finding)
     pub pow_half_as_sqrt: bool,
+    /// bug model: every value of an interpolated string is converted (`__tostring`) right after it is evaluated
+    pub interp_convert_eagerly: bool,
     next_id: u64,
     /// every table and variable cell created by this interpreter: emptied on drop to break reference cycles
     all_tables: Vec<TableRef>,
@@ -285,6 +287,7 @@ impl Interp {
             resolver: None,
             current_file: Rc::from("main"),
             pow_half_as_sqrt: false,
+            interp_convert_eagerly: false,
             next_id: 0,
             all_tables: registry,
             all_cells: Vec::new(),
@@ -337,7 +340,7 @@ impl Interp {
         let mut m = self.et_meta.borrow_mut();
         for mm in [
             "__index", "__newindex", "__call", "__add", "__sub", "__mul", "__div", "__mod", "__pow", "__unm", "__concat",
-            "__eq", "__lt", "__le", "__idiv",
+            "__eq", "__lt", "__le", "__idiv", "__tostring",
         ] {
             m.set_str(mm, Value::Builtin(Rc::new(Builtin::EtMeta(mm))));
         }
@@ -875,12 +878,35 @@ impl Interp {
                 self.eval(else_e, frame)?
             }
             Expr::Interp(parts) => {
+                // Luau compiles an interpolated string to `string.format(fmt, v1, v2, ...)`: every value is
+                // evaluated first, then each one is converted (`__tostring`) in order
+                if self.interp_convert_eagerly {
+                    let mut out = Vec::new();
+                    for p in parts {
+                        match p {
+                            InterpPart::Str(s) => out.extend_from_slice(s),
+                            InterpPart::Expr(x) => {
+                                let v = self.eval(x, frame)?;
+                                let s = self.tostring(&v)?;
+                                out.extend_from_slice(&s);
+                            }
+                        }
+                    }
+                    return Ok(Value::bytes(out));
+                }
+                let mut values = Vec::new();
+                for p in parts {
+                    if let InterpPart::Expr(x) = p {
+                        values.push(self.eval(x, frame)?);
+                    }
+                }
+                let mut values = values.into_iter();
                 let mut out = Vec::new();
                 for p in parts {
                     match p {
                         InterpPart::Str(s) => out.extend_from_slice(s),
-                        InterpPart::Expr(x) => {
-                            let v = self.eval(x, frame)?;
+                        InterpPart::Expr(_) => {
+                            let v = values.next().unwrap();
                             let s = self.tostring(&v)?;
                             out.extend_from_slice(&s);
                         }
@@ -1329,6 +1355,7 @@ impl Interp {
                     "__eq" => vec![Value::Bool(true)],
                     "__lt" => vec![Value::Bool(true)],
                     "__le" => vec![Value::Bool(false)],
+                    "__tostring" => vec![Value::str("ET")],
                     _ => vec![],
                 })
             }
